@@ -202,6 +202,14 @@ func (x *Ex) genFuncsMore(body *LeanFile) {
 		{"internal/pagination", "PageNumberFinder", "getPageInfoAndText"},
 		{"internal/pagination", "PageNumberFinder", "findAndAddClosestValidLeafNodes"},
 	})
+	// the table classifier's counting and text helpers (Model/TableClass.lean: rowsCols, hasOneOf)
+	x.bodyGroup(body, "tableCountBodies", []string{"C18"}, [][3]string{
+		{"internal/tableclass", "Classifier", "getRowAndColumnCount"},
+		{"internal/tableclass", "Classifier", "hasValidText"},
+		{"internal/tableclass", "Classifier", "hasOneOfElements"},
+		{"internal/tableclass", "Classifier", "getDirectDescendants"},
+		{"internal/tableclass", "Classifier", "hasNestedTables"},
+	})
 	// reference resolution (Model/AbsURL.lean)
 	x.bodyGroup(body, "urlBodies", []string{"C06", "C16"}, [][3]string{
 		{"internal/stringutil", "", "CreateAbsoluteURL"},
